@@ -189,7 +189,7 @@ func (m *MemoryInstance) Grow(_ context.Context, delta uint32) (result uint32, o
 
 	// If exceeds the max of memory size, we push -1 according to the spec.
 	newPages := currentPages + delta
-	if newPages > m.Max {
+	if newPages > m.Max || newPages < currentPages { // over the maximum, or the sum wrapped round
 		return 0, false
 	} else if newPages > m.Cap { // grow the memory.
 		m.Buffer = append(m.Buffer, make([]byte, MemoryPagesToBytesNum(delta))...)
